@@ -1,5 +1,9 @@
 import PyrollModel.GrooveWF
 import PyrollModel.Gen.C03
+import PyrollModel.GrooveWFFactory
+import PyrollModel.Gen.C03Factory
+import PyrollModel.GrooveWFRibbed
+import PyrollModel.Gen.C03Ribbed
 import PyrollModel.Proto
 /-!
 Line-protocol driver of the groove construction model (C03), run on `Float` with the tables generated from the source.
@@ -12,6 +16,16 @@ construct <simple 0|1> <N> cfg <k>=<bits> … args <k>=<bits> …
        | `err missing|negative|bound|arity|empty|check:<i>`
 name <code point>,<code point>,…        create_groove_by_type_name's normalisation of the name (`-` = empty string)
       -> `<normalised, as code points> <resolved class | ->`
+lookup <code points> <ns> <ns> …        the factory's lookup (generated statement list `Gen.C03Factory.steps`) of the name in a world:
+      first <ns> = namespace of the package, the others = `sys.modules.values()` in load order;
+      <ns> = <label>:<attr>=<g|t|f>[@<owner>/<object name>],…   (g groove class, t other truthy object, f falsy object; an
+      object is identified by owner/name, default <label>/<attr>)
+      -> `called <owner>/<name>` | `notfound` | `callednone` | `fell`
+ribbed given <k>=<bits> … sol <k>=<bits> … kw <k>=<bits> …
+      EquivalentRibbedGroove(**given, **kw) with the generated table `Gen.C03Ribbed.ribbed`; `sol` = the solver's answer
+      (`sol.alpha3`, `sol.flank_angle`)
+      -> `<ok|rejected> <keyword of super().__init__>=<bits> … | <keyword of the solver call>=<bits> …`
+         (`rejected`: the `validated` decorator raises)
 spline <ndim> <row>;<row>;…             row = <bits>,<bits>,… : the shape checks of SplineGroove.__init__ (with the generated face test) -> `1` | `0`
 tables                                   -> the names of the generated checks, in order
 ```
@@ -83,6 +97,56 @@ def handleName (rest : List String) : String :=
     | none => "bad-op"
   | _ => "bad-op"
 
+def binding1? (label : String) (s : String) : Option (String × Obj) :=
+  match s.splitOn "=" with
+  | [a, v] =>
+    let (k, idt) := match v.splitOn "@" with
+      | [k, i] => (k, some i)
+      | _ => (v, none)
+    let (owner, nm) := match idt with
+      | some i => (match i.splitOn "/" with | [o, n] => (o, n) | _ => (label, a))
+      | none => (label, a)
+    if k = "g" then some (a, { owner := owner, name := nm, groove := true, truthyOther := false })
+    else if k = "t" then some (a, { owner := owner, name := nm, groove := false, truthyOther := true })
+    else if k = "f" then some (a, { owner := owner, name := nm, groove := false, truthyOther := false })
+    else none
+  | _ => none
+
+def ns? (s : String) : Option Namespace :=
+  match s.splitOn ":" with
+  | [label, body] => if body = "" then some [] else (body.splitOn ",").mapM (binding1? label)
+  | _ => none
+
+def showOut : FOut → String
+  | .called o => "called " ++ o.owner ++ "/" ++ o.name
+  | .notFound => "notfound"
+  | .calledNone => "callednone"
+  | .fellThrough => "fell"
+
+def handleLookup (rest : List String) : String :=
+  match rest with
+  | enc :: pkg :: mods =>
+    match chars? enc, ns? pkg, mods.mapM ns? with
+    | some cs, some p, some ms =>
+      showOut (resolveObj Gen.C03.factory Gen.C03Factory.steps { pkg := p, modules := ms } (String.ofList cs))
+    | _, _, _ => "bad-op"
+  | _ => "bad-op"
+
+def handleRibbed (rest : List String) : String :=
+  match rest with
+  | "given" :: more =>
+    let (gT, more2) := splitAt "sol" more
+    let (sT, kT) := splitAt "kw" more2
+    match gT.mapM binding?, sT.mapM binding?, kT.mapM binding? with
+    | some given, some sol, some kw =>
+      let R := Gen.C03Ribbed.ribbed
+      let args := (ribbedArgs R nan given sol kw).given
+      let sargs := ribbedSolverArgs R nan given
+      (if ribbedInputOk R given then "ok " else "rejected ") ++ " ".intercalate (args.map showBind) ++ " | "
+        ++ " ".intercalate (sargs.map showBind)
+    | _, _, _ => "bad-op"
+  | _ => "bad-op"
+
 def row? (s : String) : Option (List Float) :=
   if s = "-" then some [] else (s.splitOn ",").mapM floatOfBitsStr
 
@@ -98,6 +162,8 @@ def handle (line : String) : String :=
   match Proto.toks line with
   | "construct" :: rest => handleConstruct rest
   | "name" :: rest => handleName rest
+  | "lookup" :: rest => handleLookup rest
+  | "ribbed" :: rest => handleRibbed rest
   | "spline" :: rest => handleSpline rest
   | ["tables"] => " ".intercalate (Gen.C03.spec.checks.map checkName)
   | _ => "bad-op"
